@@ -230,6 +230,9 @@ class LocSlice(LocBase):
     def stop(self):
         if self.iindexer.stop is not None:
             stop = _get_partitions(self.frame, self.iindexer.stop)
+            # A reversed slice selects nothing (like in pandas): slicing the
+            # start partition alone gives the empty result
+            stop = max(stop, self.start)
         else:
             stop = self.frame.npartitions - 1
         return stop
@@ -260,7 +263,7 @@ class LocSlice(LocBase):
 
     def _divisions(self):
         if self.stop == self.start:
-            return (self.istart, self.istop)
+            return (self.istart, max(self.istart, self.istop))
 
         if self.iindexer.start is None:
             div_start = self.frame.divisions[0]
